@@ -12,25 +12,59 @@ from . import common, stubs
 
 ALGS = ['no', 'inf', 'lfu', 'lru', 'mru', 'rr']
 
-# argument alphabet: arg id -> (args, kwargs, binding (x, y), kind)
-# normal bindings x = 1..NX, y = 0; several spellings per binding
-def alphabet(nx=3, safe=False, unkey=None):
-    args = []
-    for x in range(1, nx + 1):
-        args.append(((x,), {}, (x, 0), 'ok'))
-    # extra spellings of binding x=1 and x=2
-    args.append(((1, 0), {}, (1, 0), 'ok'))
-    args.append(((), {'x': 2}, (2, 0), 'ok'))
-    args.append(((), {'y': 0, 'x': 1}, (1, 0), 'ok'))
-    args.append(((7,), {}, (7, 0), 'raise'))
-    args.append(((8,), {}, (8, 0), 'raise'))
+# argument alphabet: arg id -> entry (args, kwargs, received (x, y), key class, kind, value)
+def alphabet(nx=3, safe=False, unkey=None, variant='plain'):
+    """variant 'plain'   : stub f(x, y=0) = 1000+10x+y, key class = (x, y)
+       variant 'ignore_y': decorated with ignore=('y',); stub value does not depend on y
+       variant 'ignore_1': decorated with ignore=(1,) (the positional index of y)
+       variant 'tol0'    : decorated with tol=0; stub value depends on round(x) only"""
+    E = []
+
+    def add(args, kw, recv, cls, kind='ok'):
+        if variant == 'plain':
+            val = stubs._value(*recv)
+        elif variant in ('ignore_y', 'ignore_1'):
+            val = stubs._value(recv[0], 0)
+        else:
+            val = stubs._value(round(recv[0]), 0)
+        E.append({'args': args, 'kw': kw, 'recv': recv, 'cls': cls, 'kind': kind,
+                  'val': 0 if kind == 'raise' else val})
+    if variant == 'plain':
+        for x in range(1, nx + 1):
+            add((x,), {}, (x, 0), (x, 0))
+        add((1, 0), {}, (1, 0), (1, 0))
+        add((), {'x': 2}, (2, 0), (2, 0))
+        add((), {'y': 0, 'x': 1}, (1, 0), (1, 0))
+        add((7,), {}, (7, 0), (7, 0), 'raise')
+        add((8,), {}, (8, 0), (8, 0), 'raise')
+    elif variant in ('ignore_y', 'ignore_1'):
+        for x in range(1, nx + 1):
+            add((x,), {}, (x, 0), (x,))
+        add((1, 5), {}, (1, 5), (1,))
+        add((), {'x': 2, 'y': 9}, (2, 9), (2,))
+        add((), {'y': 3, 'x': 1}, (1, 3), (1,))
+        add((7, 2), {}, (7, 2), (7,), 'raise')
+        add((8,), {}, (8, 0), (8,), 'raise')
+    elif variant == 'tol0':
+        for x in range(1, nx + 1):
+            add((float(x),), {}, (float(x), 0), (x,))
+        add((1.2,), {}, (1.2, 0), (1,))
+        add((), {'x': 1.8}, (1.8, 0), (2,))
+        add((0.9, 0), {}, (0.9, 0), (1,))
+        add((7.0,), {}, (7.0, 0), (7,), 'raise')
+        add((8.0,), {}, (8.0, 0), (8,), 'raise')
+    else:
+        raise ValueError(variant)
     if safe and unkey is not None:
-        args.append(((unkey,), {}, (unkey, 0), 'unkey'))
-    return args
+        E.append({'args': (unkey,), 'kw': {}, 'recv': (unkey, 0), 'cls': None, 'kind': 'unkey',
+                  'val': stubs._value(unkey, 0)})
+    return E
 
 
 def make_keymap(klepto, spec):
     """spec = (kind, flat, typed, extra) with kind in raw/hash-md5/hash-sha1/str/repr-pickle/pickle/dill"""
+    if spec[0] == 'default':
+        return None
     kind, flat, typed = spec[0], spec[1], spec[2]
     sentinel = spec[3] if len(spec) > 3 else None
     km = klepto.keymaps
@@ -91,7 +125,9 @@ class Recorder(object):
                 unkey = [1]                  # unhashable: fails in the keymap or at the dict lookup
             else:
                 unkey = stubs.BadRepr()      # cannot be encoded by str/repr/pickle/named hash
-        self.args = alphabet(cfg.get('nx', 3), self.safe, unkey)
+        self.variant = cfg.get('variant', 'plain')
+        self.args = alphabet(cfg.get('nx', 3), self.safe, unkey, self.variant)
+        self.funcs = stubs.FUNCS if self.variant == 'plain' else (stubs.GFUNCS if self.variant.startswith('ignore') else stubs.HFUNCS)
         self.ni = cfg.get('ni', 1)
         self.na = cfg.get('na', 2)
         self.slots = []
@@ -154,7 +190,7 @@ class Recorder(object):
         slot.handles.append(c.archive)
         return c
 
-    def _decorator(self, icfg, cache):
+    def _decorator_args(self, icfg, cache):
         cls = getattr(self.mod, icfg['alg'] + '_cache')
         kw = {}
         pos = []
@@ -171,7 +207,13 @@ class Recorder(object):
             kw['keymap'] = km
         if icfg.get('purge') is not None and icfg['alg'] not in ('no', 'inf'):
             kw['purge'] = icfg['purge']
-        return cls(*pos, **kw)
+        if self.variant == 'ignore_y':
+            kw['ignore'] = ('y',)
+        elif self.variant == 'ignore_1':
+            kw['ignore'] = (1,)
+        elif self.variant == 'tol0':
+            kw['tol'] = 0
+        return cls, pos, kw
 
     @staticmethod
     def effective(icfg):
@@ -193,8 +235,8 @@ class Recorder(object):
     def _keyid(self, real):
         for r, k in self.table:
             try:
-                if type(r) is type(real) and r == real:
-                    return k
+                if type(r) is type(real) and (r == real or (isinstance(r, tuple) and repr(r) == repr(real))):
+                    return k       # (klepto.NULL does not survive pickling as an equal object)
             except Exception:
                 pass
         return None
@@ -267,13 +309,19 @@ class Recorder(object):
         evs = []
         for (name, x, y) in new:
             a = ev.get('a')
-            if a is not None and self.args[a - 1][2] == (x, y):
+            ent = self.args[a - 1] if a is not None else None
+            if ent is not None and ent['kind'] != 'unkey' and ent['recv'] == (x, y) \
+                    and type(ent['recv'][0]) is type(x):
                 evs.append(a)
-            elif a is not None and self.args[a - 1][3] == 'unkey' and x is self.args[a - 1][0][0]:
+            elif ent is not None and ent['kind'] == 'unkey' and x is ent['recv'][0]:
                 evs.append(a)
             else:
                 evs.append(99)
         ev['ev'] = evs
+        if 'mirror' in ev:
+            prev = self.events[-1] if self.events else {}
+            ev['mret'] = prev.get('ret', 0)
+            ev['mexc'] = prev.get('exc', 'none')
         ev.setdefault('ret', 0)
         ev.setdefault('exc', 'none')
         ev.update(self.snapshot())
@@ -284,15 +332,17 @@ class Recorder(object):
         """create instance i (1-based)"""
         mark = len(stubs.LOG)
         ev = {'op': 'decorate', 'i': i}
+        # archive / keymap construction failures are recorder (machinery) problems, not verdicts
+        if rebind_slot is not None:
+            cache = self._rebind(self.slots[rebind_slot - 1])
+        else:
+            cache, slot = self._new_archive(backend, str(i))
+            if slot is not None:
+                self.slots.append(slot)
+        cls, pos, kw = self._decorator_args(icfg, cache)
         try:
-            if rebind_slot is not None:
-                cache = self._rebind(self.slots[rebind_slot - 1])
-            else:
-                cache, slot = self._new_archive(backend, str(i))
-                if slot is not None:
-                    self.slots.append(slot)
-            dec = self._decorator(icfg, cache)
-            f = dec(stubs.FUNCS[i - 1])
+            dec = cls(*pos, **kw)
+            f = dec(self.funcs[i - 1])
             f.info()
             self.inst[i - 1] = f
             self.icfg[i - 1] = icfg
@@ -315,9 +365,9 @@ class Recorder(object):
         """real key <-> key id, learned from f.key() on the first instance (C18 checks that key()
         is the storage key; C09/C10 check canonicalisation and discrimination on their own)"""
         bindings = []
-        for (_, _, b, kind) in self.args:
-            if kind != 'unkey' and b not in bindings:
-                bindings.append(b)
+        for ent in self.args:
+            if ent['kind'] != 'unkey' and ent['cls'] not in bindings:
+                bindings.append(ent['cls'])
         self.bindings = bindings
         self.nk = len(bindings) + 1          # last id collects unknown keys
         f = self.inst[0]
@@ -325,38 +375,37 @@ class Recorder(object):
         self.keyable = True
         if f is None:
             return
-        for n, (a, kw, b, kind) in enumerate(self.args, 1):
-            if kind == 'unkey':
+        for n, ent in enumerate(self.args, 1):
+            if ent['kind'] == 'unkey':
                 continue
             try:
-                rk = f.key(*a, **kw)
+                rk = f.key(*ent['args'], **ent['kw'])
                 hash(rk)
             except Exception as e:
                 self.keyable = False
                 self.notes.append('key() failed for arg %d: %s' % (n, type(e).__name__))
                 continue
-            k = bindings.index(b) + 1
+            k = bindings.index(ent['cls']) + 1
             known = self._keyid(rk)
             if known is None:
                 self.table.append((rk, k))
             elif known != k:
-                self.notes.append('key collision between bindings %d and %d' % (known, k))
+                self.notes.append('key collision between key classes %d and %d' % (known, k))
                 self.keyable = False
 
     def tla_cfg(self):
         keyof, fvals, kinds = [], [], []
-        for (a, kw, b, kind) in self.args:
-            if kind == 'unkey':
+        fk = [-1] * self.nk
+        for ent in self.args:
+            kinds.append(ent['kind'])
+            fvals.append(ent['val'])
+            if ent['kind'] == 'unkey':
                 keyof.append(1)
-                fvals.append(stubs._value(b[0], b[1]))
             else:
-                keyof.append(self.bindings.index(b) + 1)
-                fvals.append(0 if kind == 'raise' else stubs._value(*b))
-            kinds.append(kind)
-        fk = []
-        for b in self.bindings:
-            fk.append(stubs._value(*b) if b[0] not in (7, 8) else -1)
-        fk.append(-1)
+                k = self.bindings.index(ent['cls']) + 1
+                keyof.append(k)
+                if ent['kind'] == 'ok':
+                    fk[k - 1] = ent['val']
         inst = []
         for ic in self.icfg:
             ic = ic or {'alg': 'inf'}
@@ -379,7 +428,8 @@ class Recorder(object):
             return None
         try:
             if name == 'call':
-                a, kw, b, kind = self.args[o['a'] - 1]
+                ent = self.args[o['a'] - 1]
+                a, kw = ent['args'], ent['kw']
                 stubs.LAST_EXC[0] = None
                 try:
                     r = f(*a, **kw)
@@ -387,14 +437,16 @@ class Recorder(object):
                 except BaseException as e:
                     ev['exc'] = 'same' if e is stubs.LAST_EXC[0] else type(e).__name__
             elif name == 'lookup':
-                a, kw, b, kind = self.args[o['a'] - 1]
+                ent = self.args[o['a'] - 1]
+                a, kw = ent['args'], ent['kw']
                 try:
                     r = f.lookup(*a, **kw)
                     ev['ret'] = r if isinstance(r, int) and not isinstance(r, bool) else -5
                 except KeyError:
                     ev['exc'] = 'KeyError'
             elif name == 'key':
-                a, kw, b, kind = self.args[o['a'] - 1]
+                ent = self.args[o['a'] - 1]
+                a, kw = ent['args'], ent['kw']
                 rk = f.key(*a, **kw)
                 k = self._keyid(rk)
                 ev['ret'] = k if k is not None else -1
@@ -421,7 +473,7 @@ class Recorder(object):
             elif name == 'info':
                 f.info()
             elif name == 'wrapped':
-                ev['ret'] = 1 if f.__wrapped__ is stubs.FUNCS[i - 1] else 0
+                ev['ret'] = 1 if f.__wrapped__ is self.funcs[i - 1] else 0
             elif name == 'clone':
                 import dill
                 j = o['j']
